@@ -18,11 +18,18 @@ def prec(pp, unit):
     return p[unit] if unit in p else p['default']
 
 
+_FACTOR = {}
+
+
 def stored_to_unit(pp, sub, stored, unit):
-    """Reference conversion of a stored amount of one substance into a user unit."""
-    rs = ref.rsub(sub)
-    pf, base = ref.split_unit(unit)
-    return float(ref.base_amount(pp, rs, stored) * ref.per_base(rs, base) / pf)
+    """Reference conversion of a stored amount of one substance into a user unit (exact factor, computed once)."""
+    key = (sub.name, sub.mol_weight, sub.density, sub.specific_activity, unit)
+    f = _FACTOR.get(key)
+    if f is None:
+        rs = ref.rsub(sub)
+        pf, base = ref.split_unit(unit)
+        f = _FACTOR[key] = float(ref.base_amount(pp, rs, 1) * ref.per_base(rs, base) / pf)
+    return stored * f
 
 
 def total_in(pp, container, unit):
@@ -331,7 +338,8 @@ def analyze(item):
     lays = e2.layouts(len(program))
     if not _G.get('thorough'):
         n = len(program)
-        lays = [(l, y) for l, y in lays if not l.startswith('one-stage') or l in (f'one-stage-1-{max(2, n - 1)}', 'one-stage-0-1')]
+        lays = [(l, y) for l, y in lays if (not l.startswith('one-stage') or l == f'one-stage-{min(1, n - 1)}-{max(1, n - 1)}')
+                and not (l == 'per-step-last-open' and n >= 2)]
     for label, layout in lays:
         b = e2.bake(pp, vidx, program, layout)
         if not b['ok']:
@@ -353,7 +361,7 @@ def analyze(item):
             case = dict(case, vidx=vidx, program=program)
             out.append(V(sig, msg, case, exp, got))
         classes.add((label.split('-cut')[0], len(vs) > 0))
-    return out, queries, dcs, classes
+    return out, queries, dcs, classes, len(lays) + len(program) + 1
 
 
 def run(col, which, depth_quick=3, depth_thorough=4):
@@ -363,16 +371,18 @@ def run(col, which, depth_quick=3, depth_thorough=4):
     for v in vals:
         voc, programs, failing = e2.successful_programs(pp, v, depth)
         _G.update(pp=pp, vidx=v, voc=voc, thorough=(col.tier == 'thorough'))
-        res = par.pmap(analyze, [(which, p) for p in programs], chunk=4)
+        res = par.pmap(analyze, [(which, p) for p in programs], chunk=40)      # BFS order: neighbours share prefixes
         queries = dcs = 0
         classes = set()
-        for viols, q, dc, cl in res:
+        bakes = 0
+        for viols, q, dc, cl, nb in res:
+            bakes += nb
             col.add(viols)
             queries += q
             dcs += dc
             classes |= cl
         col.count('states', len(programs))
-        col.count('transitions', sum(len(e2.layouts(len(p))) for p in programs))
+        col.count('transitions', bakes)
         col.count('traces', len(programs))
         col.count('evaluations', queries)
         col.count('dont_care', dcs)
@@ -380,7 +390,7 @@ def run(col, which, depth_quick=3, depth_thorough=4):
         col.note_nontrivial({report.digest((v, k)) for k in kinds})
         col.cov.setdefault('explorations', []).append(
             {'valuation': v, 'vocabulary': len(voc), 'depth': depth, 'baked_programs': len(programs),
-             'failing_programs_pruned': failing, 'bakes_with_stage_layouts': sum(len(e2.layouts(len(p))) for p in programs),
+             'failing_programs_pruned': failing, 'bakes_incl_stage_layouts_and_prefixes': bakes,
              'tracking_queries_compared_with_ledger': queries, 'noise_zone_dont_care': dcs,
              'distinct_step_kind_sets': len(kinds)})
         mid = programs[len(programs) // 2]
@@ -391,5 +401,5 @@ def replay(case, which):
     pp = env.load()
     voc = case['program']
     _G.update(pp=pp, vidx=case['vidx'], voc=voc, thorough=True)
-    out, _, _, _ = analyze((which, tuple(range(len(voc)))))
+    out, _, _, _, _ = analyze((which, tuple(range(len(voc)))))
     return out
